@@ -233,47 +233,47 @@ Definition region_edges (s : st) (p : nat) : list (nat * nat) :=
 Definition is_region (ns : list node) (p : nat) : bool :=
   match kind_of ns p with Some KFuncDefn | Some KDf => true | _ => false end.
 
-(** building discipline: in every region the events of one child are contiguous (nothing
-    with a side effect is added elsewhere in the region between two side effects added below
-    the same child).  Decidable; checked on every real insertion log by the harness. *)
-Fixpoint contig_acc (closed : list nat) (cur : option nat) (l : list nat) : bool :=
+(** building discipline: whenever a region receives an event for a child that already had
+    one, that child is the one that had the latest event (nothing with a side effect is added
+    elsewhere in the region between two side effects added below the same child).
+    Decidable; evaluated on every real insertion log by the harness. *)
+Fixpoint discb_acc (seen : list nat) (last : option nat) (l : list nat) : bool :=
   match l with
   | [] => true
-  | x :: r =>
-    match cur with
-    | Some c => if Nat.eqb c x then contig_acc closed cur r
-                else negb (mem x closed) && contig_acc (c :: closed) (Some x) r
-    | None => contig_acc closed (Some x) r
-    end
+  | c :: r =>
+    (if mem c seen then match last with Some q => Nat.eqb q c | None => false end else true)
+    && discb_acc (c :: seen) (Some c) r
   end.
-Definition contig (l : list nat) : bool := contig_acc [] None l.
+Definition discb (l : list nat) : bool := discb_acc [] None l.
 
 Definition regions (ns : list node) : list nat := filter (is_region ns) (seq 0 (length ns)).
 
-Definition disciplined (ns : list node) : bool :=
-  forallb (fun p => contig (events ns p)) (regions ns).
+(** events of the tracking context that started when the table had [start] nodes *)
+Definition ctx_events (ns : list node) (start p : nat) : list nat :=
+  events_range ns p start (length ns - start).
 
-(** well-formed table: parents precede children, every dataflow parent got its Input and
-    Output first, effectful nodes are plain operations inside dataflow parents *)
+Definition disciplined (ns : list node) (start : nat) : bool :=
+  forallb (fun p => discb (ctx_events ns start p)) (seq 0 (length ns)).
+
+(** well-formed table: parents precede children, only the root is its own parent, effectful
+    nodes are not Input nodes, Input nodes have no children *)
 Definition wf_node (ns : list node) (i : nat) : bool :=
   match nth_error ns i with
   | None => false
   | Some x =>
-    if Nat.eqb i 0 then kind_eqb (n_kind x) KModule && negb (n_eff x)
-    else Nat.ltb (n_parent x) i
-         && negb (kind_eqb (n_kind x) KModule)
-         && (if n_eff x then kind_eqb (n_kind x) KOp && is_region ns (n_parent x) else true)
-         && (match n_kind x with
-             | KInput => match children ns (n_parent x) with c :: _ => Nat.eqb c i | [] => false end
-             | KOutput => match children ns (n_parent x) with _ :: c :: _ => Nat.eqb c i | _ => false end
-             | _ => true
-             end)
+    (Nat.eqb i 0 || Nat.ltb (n_parent x) i)
+    && negb (n_eff x && kind_eqb (n_kind x) KInput)
+    && negb (match kind_of ns (n_parent x) with Some KInput => true | _ => false end)
   end.
 Definition wf (ns : list node) : bool := forallb (wf_node ns) (seq 0 (length ns)).
 
-(** the full expected edge list of region [p] *)
-Definition expected_edges (ns : list node) (p : nat) : list (nat * nat) :=
-  match spec_chain ns p, input_of ns p, output_of ns p with
+(** the chain the property asks for in region [p], for the context started at [start]: the
+    children of [p] that contain a side effect, ordered by the insertion time of their first
+    side-effecting leaf; and the full expected edge list Input -> chain -> Output *)
+Definition ctx_chain (ns : list node) (start p : nat) : list nat := nodup_first (ctx_events ns start p).
+
+Definition expected_edges (ns : list node) (start p : nat) : list (nat * nat) :=
+  match ctx_chain ns start p, input_of ns p, output_of ns p with
   | [], _, _ => []
   | ch, Some i, Some o => pairs (i :: ch ++ [o])
   | _, _, _ => []
